@@ -154,6 +154,10 @@ def simulate(
         )
         if sparse_argmax is not None:
             cont_choice_argmax = cont_choice_argmax[sparse_argmax]
+            # The dense argmax is computed for each sparse state-choice combination.
+            # Select the entry of the optimal sparse combination of each state.
+            if dense_argmax is not None:
+                dense_argmax = dense_argmax[sparse_argmax]
 
         # Convert optimal choice indices to actual choice values
         # ==============================================================================
